@@ -99,6 +99,16 @@ Theorem replace_undo : forall b f finv sh,
 Proof. exact replace_undo_lemma. Qed.
 Print Assumptions replace_undo.
 
+Theorem replace_style_consulted_exactly_on_style_urls : forall f g st,
+  replaceUrls_style f st = replaceUrls_style g st <-> (forall u, In u (style_urls st) -> f u = g u).
+Proof. exact replace_style_ext_lemma. Qed.
+Print Assumptions replace_style_consulted_exactly_on_style_urls.
+
+Theorem replace_style_compose : forall g f st,
+  replaceUrls_style g (replaceUrls_style f st) = replaceUrls_style (fun u => g (f u)) st.
+Proof. exact replace_style_compose_lemma. Qed.
+Print Assumptions replace_style_compose.
+
 Example replace_compose_nontrivial :
   let sh := [IImport (s "i"); IRule (RMedia [RPage [[VFun [VUri (s "p"); VOther]]] [RMargin [[VUri (s "m")]]]])] in
   getUrls (replaceUrls false (fun u => u ++ s "?") (replaceUrls false (fun u => s "/" ++ u) sh))
